@@ -175,6 +175,22 @@ def rule_zoom(ctx, fns, enums):
                 det = "each axis is interpolated with zoom = in size / out size and offset = (out origin - in origin) / in size of that axis"
         ctx.ob("C15.d-zoom-per-axis", fid, "zoom-and-offset-per-axis", ok, f.where(), det)
         n += 1
+        # the caller's output image is completely (re)defined: the interpolation that writes it assigns zero to the part that does not
+        # overlap with the input (assign_rest_with_zeroes true, which is also the default); otherwise stale content of a re-used
+        # destination survives and the sum is not the input's
+        final = [c for c in calls if key(c.call_args()[0].strip()) == outp]
+        okz = len(final) == 1
+        detz = "%d interpolations write the output image" % len(final)
+        if okz:
+            a = final[0].call_args()
+            if len(a) >= 5:
+                v = alg.expr(a[4])
+                okz = v == 1
+                detz = "assign_rest_with_zeroes = %s" % key(a[4], True)
+            else:
+                detz = "assign_rest_with_zeroes defaulted (true)"
+        ctx.ob("C15.d-zoom-per-axis", fid, "output-completely-defined", okz, (final[0] if final else f).where() if final else f.where(), "the interpolation into the caller's image zeroes what the input does not cover (%s)" % detz if okz else "the caller's output image keeps its old content outside the input's extent: %s" % detz)
+        n += 1
         # ---- e: scaling switch
         sw = [m for m in f.walk() if m.k == "SwitchStmt"]
         en = [e for e in enums if e["qn"].endswith("ZoomOptions::Scaling")]
@@ -261,6 +277,6 @@ def run(ctx):
     ctx.require_count("C15.a-ssrb-accumulates-into-fresh-sinogram", 1)
     ctx.require_count("C15.b-ssrb-covers-all-input", 5)
     ctx.require_count("C15.c-ssrb-normalises-only-on-request", 1)
-    ctx.require_count("C15.d-zoom-per-axis", 2)
+    ctx.require_count("C15.d-zoom-per-axis", 4)
     ctx.require_count("C15.e-zoom-scaling-options", 2)
     ctx.require_count("C15.f-zoom-variants-delegate", 3)
